@@ -185,3 +185,105 @@ Example add_range_example :
   snd r = true /\ ps_parts (fst r) = [-1; 0; -1; -1; 0; -1; -1; 0; -1; -1] /\
   snd (add_range (fst r) [x71] 4 4 1) = false.
 Proof. vm_compute. auto. Qed.
+
+(* ---- a whole partition file ---- *)
+Definition addressed_by (x : list byte * (Z * Z * Z)) (j : Z) : Prop :=
+  let '(s, e, m) := snd x in addressed s e m j.
+
+Lemma name_index_app_some n ext : forall l k r, name_index n l k = Some r -> name_index n (l ++ ext) k = Some r.
+Proof.
+  induction l as [|x t IH]; intros k r H; cbn in *; [discriminate|].
+  destruct (bytes_eqb x n); [exact H | apply IH; exact H].
+Qed.
+
+Lemma name_index_app_none n : forall l k, name_index n l k = None ->
+  name_index n (l ++ [n]) k = Some (k + Z.of_nat (length l)).
+Proof.
+  induction l as [|x t IH]; intros k H; cbn [app name_index length] in *.
+  - rewrite bytes_eqb_refl. f_equal. lia.
+  - destruct (bytes_eqb x n); [discriminate|]. rewrite IH by exact H. f_equal. lia.
+Qed.
+
+Lemma name_index_ge n : forall l k r, name_index n l k = Some r -> k <= r.
+Proof.
+  induction l as [|x t IH]; intros k r H; cbn in H; [discriminate|].
+  destruct (bytes_eqb x n); [inversion H; lia | apply IH in H; lia].
+Qed.
+
+Lemma range_index_nonneg ps n : 0 <= range_index ps n.
+Proof.
+  unfold range_index. destruct (name_index n (ps_names ps) 0) eqn:H; [apply name_index_ge in H; lia | lia].
+Qed.
+
+(* the names only grow, and the range's name is then found at the index its sites received *)
+Lemma add_range_names ps n s e m ps' ok :
+  add_range ps n s e m = (ps', ok) ->
+  (exists ext, ps_names ps' = ps_names ps ++ ext) /\
+  ((0 <= s /\ e < ps_len ps /\ 0 < m) -> name_index n (ps_names ps') 0 = Some (range_index ps n)).
+Proof.
+  intros H. unfold add_range in H.
+  destruct (s <? 0) eqn:H1. { inversion H; subst. split; [exists []; rewrite app_nil_r; reflexivity | intros; lia]. }
+  destruct (e >=? ps_len ps) eqn:H2. { inversion H; subst. split; [exists []; rewrite app_nil_r; reflexivity | intros; lia]. }
+  destruct (m <=? 0) eqn:H3. { inversion H; subst. split; [exists []; rewrite app_nil_r; reflexivity | intros; lia]. }
+  unfold range_index.
+  destruct (name_index n (ps_names ps) 0) as [k|] eqn:Hn.
+  - destruct (addrange_loop _ _ _ _ _ _) as [p' o']. inversion H; subst; cbn [ps_names].
+    split; [exists []; rewrite app_nil_r; reflexivity | intros _; exact Hn].
+  - destruct (addrange_loop _ _ _ _ _ _) as [p' o']. inversion H; subst; cbn [ps_names].
+    split; [exists [n]; reflexivity|]. intros _. rewrite name_index_app_none by exact Hn. f_equal.
+Qed.
+
+(* a whole partition file: the ranges are applied in order; when all succeed, every range was inside the
+   alignment, every addressed site was free before and is addressed by exactly one range of the file, it
+   carries the index under which that range's name is found in the final name list, and a site no range
+   addresses keeps what it had *)
+Theorem add_ranges_spec : forall l ps ps',
+  ps_wf ps -> add_ranges ps l = (ps', true) ->
+  ps_wf ps' /\ ps_len ps' = ps_len ps /\
+  (exists ext, ps_names ps' = ps_names ps ++ ext) /\
+  (forall x, In x l -> let '(s, e, m) := snd x in 0 <= s /\ e < ps_len ps /\ 0 < m) /\
+  (forall j, 0 <= j -> (forall x, In x l -> ~ addressed_by x j) ->
+     nth (Z.to_nat j) (ps_parts ps') (-1) = nth (Z.to_nat j) (ps_parts ps) (-1)) /\
+  (forall j x, 0 <= j -> In x l -> addressed_by x j ->
+     nth (Z.to_nat j) (ps_parts ps) (-1) = -1 /\
+     name_index (fst x) (ps_names ps') 0 = Some (nth (Z.to_nat j) (ps_parts ps') (-1))) /\
+  ForallOrdPairs (fun x y => forall j, 0 <= j -> ~ (addressed_by x j /\ addressed_by y j)) l.
+Proof.
+  induction l as [|[n [[s e] m]] t IH]; intros ps ps' Hwf H.
+  - cbn in H. inversion H; subst. split; [exact Hwf|]. split; [reflexivity|].
+    split; [exists []; rewrite app_nil_r; reflexivity|].
+    split; [intros x []|]. split; [reflexivity|]. split; [intros j x _ []|constructor].
+  - cbn [add_ranges] in H.
+    destruct (add_range ps n s e m) as [ps1 ok] eqn:HA.
+    destruct ok; [|discriminate].
+    destruct (add_range_spec _ _ _ _ _ _ _ Hwf HA) as [Hbad Hgood].
+    destruct (add_range_names _ _ _ _ _ _ _ HA) as [[ext1 Hext1] Hname].
+    assert (Hb : 0 <= s /\ e < ps_len ps /\ 0 < m).
+    { destruct (Z_lt_dec s 0); [destruct Hbad as [? _]; [lia|discriminate]|].
+      destruct (Z_le_dec (ps_len ps) e); [destruct Hbad as [? _]; [lia|discriminate]|].
+      destruct (Z_le_dec m 0); [destruct Hbad as [? _]; [lia|discriminate]|]. lia. }
+    destruct (Hgood Hb) as [Hwf1 [Hlen1 [Hok _]]]. destruct (Hok eq_refl) as [Ha Hna].
+    specialize (Hname Hb).
+    destruct (IH ps1 ps' Hwf1 H) as [Hwf' [Hlen' [[ext Hext] [Hbounds [Hkeep [Haddr Hpairs]]]]]].
+    split; [exact Hwf'|]. split; [lia|].
+    split; [exists (ext1 ++ ext); rewrite Hext, Hext1, app_assoc; reflexivity|].
+    split.
+    { intros x [<-|Hx]; [cbn; exact Hb|]. specialize (Hbounds x Hx). destruct (snd x) as [[? ?] ?]. lia. }
+    split.
+    { intros j Hj Hno. rewrite Hkeep; [| exact Hj | intros x Hx; apply Hno; right; exact Hx].
+      apply Hna; [exact Hj|]. exact (Hno (n, (s, e, m)) (or_introl eq_refl)). }
+    assert (Hhead : forall j, 0 <= j -> addressed s e m j -> forall y, In y t -> ~ addressed_by y j).
+    { intros j Hj Hd y Hy Hyj. destruct (Haddr j y Hj Hy Hyj) as [Hfree _].
+      destruct (Ha j Hj Hd) as [_ Hset]. pose proof (range_index_nonneg ps n). lia. }
+    split.
+    { intros j x Hj [<-|Hx] Hd.
+      - cbn in Hd. destruct (Ha j Hj Hd) as [Hfree Hset]. split; [exact Hfree|].
+        cbn [fst]. rewrite (Hkeep j Hj (Hhead j Hj Hd)). rewrite Hset.
+        rewrite Hext. apply name_index_app_some. exact Hname.
+      - destruct (Haddr j x Hj Hx Hd) as [Hfree Hidx]. split; [|exact Hidx].
+        destruct (addressed_dec s e m j) as [Hd0|Hd0].
+        + exfalso. exact (Hhead j Hj Hd0 x Hx Hd).
+        + rewrite <- (Hna j Hj Hd0). exact Hfree. }
+    constructor; [|exact Hpairs].
+    apply Forall_forall. intros y Hy j Hj [Hd Hyj]. exact (Hhead j Hj Hd y Hy Hyj).
+Qed.
